@@ -132,14 +132,17 @@ Definition group_keep (g : grouping) (n : string) : bool :=
 Definition group_ids (ids : list string) (g : grouping) : list string := filter (group_keep g) ids.
 Definition proj_of (d : dset) (g : grouping) (r : arow) : list val := select_by (d_ids d) (group_keep g) (fst r).
 
-(* grouping components must be identifiers of the operand *)
+(* grouping components must be identifiers of the operand (the first offending name decides the error) *)
+Fixpoint check_names (ids ms : list string) (l : list string) : res unit :=
+  match l with
+  | [] => Ok tt
+  | n :: t => if mem_s n ids then check_names ids ms t
+              else if mem_s n ms then Err "1-1-2-2" else Err "1-1-1-10"
+  end.
 Definition check_grouping (d : dset) (g : grouping) : res unit :=
   match g with
   | GNone => Ok tt
-  | GBy l | GExcept l =>
-      if negb (forallb (fun n => mem_s n (d_ids d) || mem_s n (d_ms d)) l) then Err "1-1-1-10"
-      else if negb (forallb (fun n => mem_s n (d_ids d)) l) then Err "1-1-2-2"
-      else Ok tt
+  | GBy l | GExcept l => check_names (d_ids d) (d_ms d) l
   end.
 
 (* ---------------- aggregates of one group, having *)
